@@ -1,7 +1,7 @@
 (* C06 — garbage collectors running concurrently never disturb callers (partial: what is proved is the per-step
    stutter property the concurrent argument rests on; see DESIGN.md for what is missing). *)
 From Coq Require Import List NArith.
-From STH Require Import Log Lex Index Store IndexStore GCIndex Refine GInv PGC5 Keep.
+From STH Require Import Log Lex Index Store IndexStore GCIndex Refine GInv PGC5 Keep Crash2 Conc Conc2 ConcEx.
 Import ListNotations.
 Open Scope N_scope.
 
@@ -31,3 +31,33 @@ Theorem C06_primary_gc_keeps_records_not_on_the_freelist_file :
     live_at (spri (primary_gc lu s)) f lp k v.
 Proof. exact primary_gc_keeps. Qed.
 Print Assumptions C06_primary_gc_keeps_records_not_on_the_freelist_file.
+
+(* ---- index GC cycles as THREADS.  [QIgcCycle scanFree] is a program of atomic steps next to the callers' programs of C05: the
+   free-file scan, then one step per index file (mark, merge, truncate, unlink the first file when it is empty) up to the file
+   that was current when the cycle began.  For ANY number of threads - callers (Put, Get, Has, GetSize, Remove, Flush) and index
+   GC cycles - and ANY schedule of their steps, if no two writers address one key: every completed call returned what the
+   specification map answered at its linearization point (a GC step never changes the map), and the shared state stays related
+   to the map: no call fails, loses or resurrects a key because a cycle marked, merged, truncated or unlinked underneath it.
+   Missing relative to the full property: the steps inside the reaping of ONE file (per-record busy checks: freedom of an index
+   record is monotone, so a check made earlier only keeps more), and primary GC cycles as threads (their per-cycle stutter
+   theorems are above; the relocation's compare-and-swap is exercised by the scheduler on the real code). ---- *)
+Theorem C06_callers_and_index_gc_cycles_are_linearizable :
+  forall imm bits (U : bytes -> Prop), unrelated bits U ->
+  forall s m calls sched, init_ok2 bits U s m calls ->
+    let '(s', m', ps) := exec2 imm (s, m, map QStart calls) sched in
+    R bits U s' m' /\ forall t r lin, nth_error ps t = Some (QDone r lin) -> r = lin.
+Proof. exact conc_linearizable2. Qed.
+Print Assumptions C06_callers_and_index_gc_cycles_are_linearizable.
+
+(* the schedule space is not empty: two callers and a cycle over a store with three index files, one record list superseded *)
+Theorem C06_a_cycle_between_callers :
+  let setup := [OPut [18;6;5;7;7;1;1;10] [97]; OFlush [5]; OPut [18;6;6;7;7;1;2;12] [98]; OFlush [6]; OPut [18;6;5;7;7;1;1;10] [99]; OFlush [5]] in
+  let s0 := run_state (init 8 40 1048576 false) setup in
+  let '(s', _, ps) := exec2 false (s0, spec_state false sempty setup, map QStart [QIgcCycle true; QGet [18;6;5;7;7;1;1;10]; QPut [18;6;6;7;7;1;2;12] [100]])
+                            [0; 1; 0; 2; 0; 1; 2; 0; 2; 0; 0]%nat in
+  ps = [QDone ROk ROk; QDone (RVal true [99]) (RVal true [99]); QDone ROk ROk] /\
+  match aget 0 (ifiles (sidx s0)), aget 0 (ifiles (sidx s')) with
+  | Some (ILive 5 _ :: _), Some (IDead _ :: _) => True      (* the cycle marked the superseded record list of bucket 5 *)
+  | _, _ => False end.
+Proof. exact cycle_between_callers. Qed.
+Print Assumptions C06_a_cycle_between_callers.
